@@ -13,7 +13,7 @@ cp "$out/meta.json" "$dst/meta.agent.json" 2>/dev/null
 export GOFLAGS=-mod=mod GOPROXY=off GOSUMDB=off GOTOOLCHAIN=local
 copy=$(mktemp -d /tmp/seedrepo-XXXXXX)
 cp -r /repo/. "$copy"/
-trap 'rm -rf "$copy"; git -C /verif checkout -- evidence 2>/dev/null' EXIT
+trap 'rm -rf "$copy" /tmp/verif-evidence-*' EXIT
 demo=$(python3 -c "import json,sys; print(json.load(open('$out/meta.json')).get('demo_cmd','go test -vet=off -count=1 -run Demo .'))" 2>/dev/null)
 cp "$dst/zz_demo_test.go" "$copy/" 2>/dev/null
 echo "-- demo WITHOUT change:"; ( cd "$copy" && timeout 300 $demo 2>&1 | tail -2 )
